@@ -136,6 +136,15 @@ let rec nth_error l = function
            | [] -> None
            | _ :: l0 -> nth_error l0 n1)
 
+(** val last : 'a1 list -> 'a1 -> 'a1 **)
+
+let rec last l d =
+  match l with
+  | [] -> d
+  | a :: l0 -> (match l0 with
+                | [] -> a
+                | _ :: _ -> last l0 d)
+
 (** val rev : 'a1 list -> 'a1 list **)
 
 let rec rev = function
@@ -168,11 +177,23 @@ let rec fold_left f l a0 =
   | [] -> a0
   | b :: t -> fold_left f t (f a0 b)
 
+(** val fold_right : ('a2 -> 'a1 -> 'a1) -> 'a1 -> 'a2 list -> 'a1 **)
+
+let rec fold_right f a0 = function
+| [] -> a0
+| b :: t -> f b (fold_right f a0 t)
+
 (** val existsb : ('a1 -> bool) -> 'a1 list -> bool **)
 
 let rec existsb f = function
 | [] -> false
 | a :: l0 -> (||) (f a) (existsb f l0)
+
+(** val filter : ('a1 -> bool) -> 'a1 list -> 'a1 list **)
+
+let rec filter f = function
+| [] -> []
+| x :: l0 -> if f x then x :: (filter f l0) else filter f l0
 
 (** val firstn : nat -> 'a1 list -> 'a1 list **)
 
@@ -1035,6 +1056,18 @@ let rec overwrite bs off w =
      | [] -> N0 :: (overwrite [] o w)
      | b :: r -> b :: (overwrite r o w))
 
+(** val beq_bytes : bytes -> bytes -> bool **)
+
+let rec beq_bytes a b =
+  match a with
+  | [] -> (match b with
+           | [] -> true
+           | _ :: _ -> false)
+  | x :: a' ->
+    (match b with
+     | [] -> false
+     | y :: b' -> (&&) (N.eqb x y) (beq_bytes a' b'))
+
 (** val all_zero : bytes -> bool **)
 
 let rec all_zero = function
@@ -1619,6 +1652,17 @@ let frameIndex =
 
 let frameCommit =
   Npos (XI XH)
+
+(** val firstExternalCodecID : n **)
+
+let firstExternalCodecID =
+  Npos (XO (XO (XO (XO (XO (XO (XO (XO (XO (XO (XO (XO (XO (XO (XO (XO
+    XH))))))))))))))))
+
+(** val binaryCodecID : n **)
+
+let binaryCodecID =
+  Npos XH
 
 (** val file_header_len : n **)
 
@@ -2730,6 +2774,2105 @@ let run_seg = function
                   | None -> s_bad)
                | None -> s_bad)))))
 
+(** val llen : 'a1 list -> n **)
+
+let llen l =
+  N.of_nat (length l)
+
+(** val sub64 : n -> n -> n **)
+
+let sub64 a b =
+  N.modulo (N.sub (N.add a two64) (N.modulo b two64)) two64
+
+type pstate = { ps_next_id : n; ps_segs : seginfo list }
+
+type fname = n * n
+
+(** val name_of : seginfo -> fname **)
+
+let name_of si =
+  (si.si_base, si.si_id)
+
+(** val fname_eqb : fname -> fname -> bool **)
+
+let fname_eqb a b =
+  (&&) (N.eqb (fst a) (fst b)) (N.eqb (snd a) (snd b))
+
+type pbatch = { pb_ents : log list; pb_end : n; pb_seal : n }
+
+type dfile = { df_ents : log list; df_end : n; df_seal : n;
+               df_pend : pbatch option; df_dir : bool; df_size : n }
+
+type kv = bytes * bytes
+
+type disk = { dk_files : (fname * dfile) list; dk_meta : pstate option;
+              dk_stable : kv list; dk_inited : bool }
+
+(** val empty_disk : disk **)
+
+let empty_disk =
+  { dk_files = []; dk_meta = None; dk_stable = []; dk_inited = false }
+
+(** val lookup : fname -> (fname * dfile) list -> dfile option **)
+
+let rec lookup n0 = function
+| [] -> None
+| p :: r -> let (m, f) = p in if fname_eqb n0 m then Some f else lookup n0 r
+
+(** val update :
+    fname -> dfile -> (fname * dfile) list -> (fname * dfile) list **)
+
+let rec update n0 f = function
+| [] -> (n0, f) :: []
+| p :: r ->
+  let (m, g) = p in
+  if fname_eqb n0 m then (n0, f) :: r else (m, g) :: (update n0 f r)
+
+(** val remove : fname -> (fname * dfile) list -> (fname * dfile) list **)
+
+let rec remove n0 = function
+| [] -> []
+| p :: r ->
+  let (m, g) = p in if fname_eqb n0 m then r else (m, g) :: (remove n0 r)
+
+type act =
+| ACreate of fname * n
+| AWrite of fname * n * n * pbatch
+| ASync of fname
+| ADelete of fname
+| ACommit of pstate
+| ASetStable of bytes * bytes
+| AInitMeta
+| AFail of act
+
+(** val bytes_eqb : bytes -> bytes -> bool **)
+
+let bytes_eqb =
+  beq_bytes
+
+(** val kv_set : bytes -> bytes -> kv list -> kv list **)
+
+let rec kv_set k v = function
+| [] -> (match v with
+         | [] -> []
+         | _ :: _ -> (k, v) :: [])
+| k0 :: r ->
+  let (k', v') = k0 in
+  if bytes_eqb k k'
+  then (match v with
+        | [] -> r
+        | _ :: _ -> (k, v) :: r)
+  else (k', v') :: (kv_set k v r)
+
+(** val kv_get : bytes -> kv list -> bytes **)
+
+let rec kv_get k = function
+| [] -> []
+| k0 :: r -> let (k', v') = k0 in if bytes_eqb k k' then v' else kv_get k r
+
+(** val apply_act : disk -> act -> disk **)
+
+let apply_act d = function
+| ACreate (n0, size) ->
+  { dk_files =
+    (update n0 { df_ents = []; df_end = N0; df_seal = N0; df_pend = None;
+      df_dir = false; df_size = size } d.dk_files); dk_meta = d.dk_meta;
+    dk_stable = d.dk_stable; dk_inited = d.dk_inited }
+| AWrite (n0, off, _, b) ->
+  (match lookup n0 d.dk_files with
+   | Some f ->
+     let b' =
+       match f.df_pend with
+       | Some p ->
+         if N.eqb off p.pb_end
+         then { pb_ents = (app p.pb_ents b.pb_ents); pb_end = b.pb_end;
+                pb_seal = b.pb_seal }
+         else b
+       | None -> b
+     in
+     { dk_files =
+     (update n0 { df_ents = f.df_ents; df_end = f.df_end; df_seal =
+       f.df_seal; df_pend = (Some b'); df_dir = f.df_dir; df_size =
+       f.df_size } d.dk_files); dk_meta = d.dk_meta; dk_stable = d.dk_stable;
+     dk_inited = d.dk_inited }
+   | None -> d)
+| ASync n0 ->
+  (match lookup n0 d.dk_files with
+   | Some f ->
+     let f' =
+       match f.df_pend with
+       | Some b ->
+         { df_ents = (app f.df_ents b.pb_ents); df_end = b.pb_end; df_seal =
+           b.pb_seal; df_pend = None; df_dir = true; df_size = f.df_size }
+       | None ->
+         { df_ents = f.df_ents; df_end = f.df_end; df_seal = f.df_seal;
+           df_pend = None; df_dir = true; df_size = f.df_size }
+     in
+     { dk_files = (update n0 f' d.dk_files); dk_meta = d.dk_meta; dk_stable =
+     d.dk_stable; dk_inited = d.dk_inited }
+   | None -> d)
+| ADelete n0 ->
+  { dk_files = (remove n0 d.dk_files); dk_meta = d.dk_meta; dk_stable =
+    d.dk_stable; dk_inited = d.dk_inited }
+| ACommit ps ->
+  { dk_files = d.dk_files; dk_meta = (Some ps); dk_stable = d.dk_stable;
+    dk_inited = true }
+| ASetStable (k, v) ->
+  { dk_files = d.dk_files; dk_meta = d.dk_meta; dk_stable =
+    (kv_set k v d.dk_stable); dk_inited = true }
+| AInitMeta ->
+  { dk_files = d.dk_files; dk_meta = d.dk_meta; dk_stable = d.dk_stable;
+    dk_inited = true }
+| AFail _ -> d
+
+(** val cur_ents : dfile -> log list **)
+
+let cur_ents f =
+  match f.df_pend with
+  | Some b -> app f.df_ents b.pb_ents
+  | None -> f.df_ents
+
+(** val cur_end : dfile -> n **)
+
+let cur_end f =
+  match f.df_pend with
+  | Some b -> b.pb_end
+  | None -> f.df_end
+
+(** val cur_seal : dfile -> n **)
+
+let cur_seal f =
+  match f.df_pend with
+  | Some b -> b.pb_seal
+  | None -> f.df_seal
+
+type crash_choice = { cc_keep_file : fname list; cc_keep_batch : fname list }
+
+(** val mem_name : fname -> fname list -> bool **)
+
+let mem_name n0 l =
+  existsb (fname_eqb n0) l
+
+(** val crash_file :
+    crash_choice -> (fname * dfile) -> (fname * dfile) list **)
+
+let crash_file c = function
+| (n0, f) ->
+  if (&&) (negb f.df_dir) (negb (mem_name n0 c.cc_keep_file))
+  then []
+  else let keep = mem_name n0 c.cc_keep_batch in
+       (n0,
+       (match f.df_pend with
+        | Some b ->
+          if keep
+          then { df_ents = (app f.df_ents b.pb_ents); df_end = b.pb_end;
+                 df_seal = b.pb_seal; df_pend = None; df_dir = true;
+                 df_size = f.df_size }
+          else { df_ents = f.df_ents; df_end = f.df_end; df_seal = f.df_seal;
+                 df_pend = None; df_dir = true; df_size = f.df_size }
+        | None ->
+          { df_ents = f.df_ents; df_end = f.df_end; df_seal = f.df_seal;
+            df_pend = None; df_dir = true; df_size = f.df_size })) :: []
+
+(** val crash_disk : crash_choice -> disk -> disk **)
+
+let crash_disk c d =
+  { dk_files = (flat_map (crash_file c) d.dk_files); dk_meta = d.dk_meta;
+    dk_stable = d.dk_stable; dk_inited = d.dk_inited }
+
+type wseg = { ws_name : fname; ws_base : n; ws_min : n; ws_limit : n;
+              ws_n : n; ws_off : n; ws_hdr : bool; ws_index_start : n;
+              ws_commit_idx : n }
+
+type metrics = { m_bytes_written : n; m_entries_written : n; m_appends : 
+                 n; m_bytes_read : n; m_entries_read : n; m_rotations : 
+                 n; m_head_trunc : n; m_tail_trunc : n; m_stable_gets : 
+                 n; m_stable_sets : n }
+
+(** val zero_metrics : metrics **)
+
+let zero_metrics =
+  { m_bytes_written = N0; m_entries_written = N0; m_appends = N0;
+    m_bytes_read = N0; m_entries_read = N0; m_rotations = N0; m_head_trunc =
+    N0; m_tail_trunc = N0; m_stable_gets = N0; m_stable_sets = N0 }
+
+type cfg = { c_seg_size : n; c_codec : n }
+
+type wal = { st_next_id : n; st_segs : seginfo list; st_tail : wseg option;
+             st_rotate : n option; st_failed : bool; st_closed : bool }
+
+type result =
+| ROk0
+| RErrClosed
+| RErrNotFound
+| RErrNonMono
+| RErrMiddle
+| RErrSealed
+| RErrTooBig
+| RErrCorrupt
+| RErrIO
+| RErrFailed
+| RErrOther
+| RVal of n
+| RLog of log
+| RBytes of bytes
+
+type env = { e_acts : act list; e_disk : disk; e_fault : nat option;
+             e_m : metrics }
+
+(** val is_delete : act -> bool **)
+
+let is_delete = function
+| ADelete _ -> true
+| _ -> false
+
+(** val io : act -> env -> bool * env **)
+
+let io a e =
+  if is_delete a
+  then (true, { e_acts = (a :: e.e_acts); e_disk = (apply_act e.e_disk a);
+         e_fault = e.e_fault; e_m = e.e_m })
+  else (match e.e_fault with
+        | Some n0 ->
+          (match n0 with
+           | O ->
+             (false, { e_acts = ((AFail a) :: e.e_acts); e_disk = e.e_disk;
+               e_fault = None; e_m = e.e_m })
+           | S n1 ->
+             (true, { e_acts = (a :: e.e_acts); e_disk =
+               (apply_act e.e_disk a); e_fault = (Some n1); e_m = e.e_m }))
+        | None ->
+          (true, { e_acts = (a :: e.e_acts); e_disk = (apply_act e.e_disk a);
+            e_fault = None; e_m = e.e_m }))
+
+(** val with_m : env -> metrics -> env **)
+
+let with_m e m =
+  { e_acts = e.e_acts; e_disk = e.e_disk; e_fault = e.e_fault; e_m = m }
+
+(** val seg_set : seginfo -> seginfo list -> seginfo list **)
+
+let rec seg_set si l = match l with
+| [] -> si :: []
+| x :: r ->
+  if N.ltb si.si_base x.si_base
+  then si :: l
+  else if N.eqb si.si_base x.si_base then si :: r else x :: (seg_set si r)
+
+(** val seg_del : n -> seginfo list -> seginfo list **)
+
+let rec seg_del base = function
+| [] -> []
+| x :: r -> if N.eqb x.si_base base then r else x :: (seg_del base r)
+
+(** val tail_info : seginfo list -> seginfo option **)
+
+let tail_info l =
+  last (map (fun x -> Some x) l) None
+
+(** val tail_last : wseg option -> n **)
+
+let tail_last = function
+| Some w -> w.ws_commit_idx
+| None -> N0
+
+(** val first_index : seginfo list -> wseg option -> n **)
+
+let first_index segs t =
+  match segs with
+  | [] -> N0
+  | s :: _ ->
+    if (&&) (negb s.si_sealed) (N.eqb (tail_last t) N0) then N0 else s.si_min
+
+(** val last_index : seginfo list -> wseg option -> n **)
+
+let last_index segs t =
+  if N.ltb N0 (tail_last t)
+  then tail_last t
+  else (match rev segs with
+        | [] -> N0
+        | tl :: l ->
+          (match l with
+           | [] -> N0
+           | _ :: _ ->
+             if N.eqb tl.si_base N0 then N0 else N.sub tl.si_base (Npos XH)))
+
+(** val seek_split :
+    n -> seginfo list -> seginfo list -> seginfo list * seginfo list **)
+
+let rec seek_split idx before l = match l with
+| [] -> (before, [])
+| x :: r ->
+  if N.leb idx x.si_base then (before, l) else seek_split idx (x :: before) r
+
+(** val find_segment : seginfo list -> n -> seginfo option **)
+
+let find_segment segs idx =
+  let (before, l) = seek_split idx [] segs in
+  (match l with
+   | [] -> None
+   | x :: _ ->
+     let cand =
+       if N.ltb idx x.si_base
+       then (match before with
+             | [] -> None
+             | p :: _ -> Some p)
+       else Some x
+     in
+     (match cand with
+      | Some s ->
+        if (&&) (N.leb s.si_min idx)
+             ((||) (N.eqb s.si_max N0) (N.leb idx s.si_max))
+        then Some s
+        else None
+      | None -> None))
+
+(** val enc_len : log -> n **)
+
+let enc_len l =
+  match encode_log l with
+  | Some b -> len b
+  | None -> N0
+
+(** val frames_size : log list -> n **)
+
+let frames_size ls =
+  fold_left (fun a l -> N.add a (enc_frame_size (enc_len l))) ls N0
+
+(** val new_wseg : seginfo -> wseg **)
+
+let new_wseg si =
+  { ws_name = (name_of si); ws_base = si.si_base; ws_min = si.si_min;
+    ws_limit = si.si_size_limit; ws_n = N0; ws_off = N0; ws_hdr = true;
+    ws_index_start = N0; ws_commit_idx = N0 }
+
+(** val seg_create : seginfo -> env -> wseg option * env **)
+
+let seg_create si e =
+  if N.eqb si.si_base N0
+  then (None, e)
+  else (match lookup (name_of si) e.e_disk.dk_files with
+        | Some _ ->
+          let (_, e') =
+            io (AFail (ACreate ((name_of si), si.si_size_limit))) e
+          in
+          (None, e')
+        | None ->
+          let (ok, e') = io (ACreate ((name_of si), si.si_size_limit)) e in
+          if ok then ((Some (new_wseg si)), e') else (None, e'))
+
+(** val seg_append : wseg -> log list -> env -> (result * wseg) * env **)
+
+let seg_append w ls e =
+  match ls with
+  | [] -> ((ROk0, w), e)
+  | l0 :: _ ->
+    if N.ltb N0 w.ws_index_start
+    then ((RErrSealed, w), e)
+    else if existsb (fun l -> N.ltb maxEntrySize (enc_len l)) ls
+         then ((RErrTooBig, w), e)
+         else if negb (N.eqb l0.l_index (N.add w.ws_base w.ws_n))
+              then ((RErrNonMono, w), e)
+              else let n' = N.add w.ws_n (llen ls) in
+                   let buf =
+                     N.add
+                       (if w.ws_hdr
+                        then Npos (XO (XO (XO (XO (XO XH)))))
+                        else N0) (frames_size ls)
+                   in
+                   let seal =
+                     N.ltb w.ws_limit
+                       (N.modulo
+                         (N.add w.ws_off
+                           (N.modulo (N.add buf (index_frame_size n')) two32))
+                         two32)
+                   in
+                   let buf2 =
+                     if seal then N.add buf (index_frame_size n') else buf
+                   in
+                   let istart =
+                     if seal
+                     then N.add (N.add w.ws_off buf) (Npos (XO (XO (XO XH))))
+                     else N0
+                   in
+                   let total = N.add buf2 (Npos (XO (XO (XO XH)))) in
+                   let last0 = N.sub (N.add w.ws_base n') (Npos XH) in
+                   let b = { pb_ents = ls; pb_end =
+                     (N.modulo (N.add w.ws_off total) two32); pb_seal =
+                     istart }
+                   in
+                   let (ok1, e1) =
+                     io (AWrite (w.ws_name, w.ws_off, total, b)) e
+                   in
+                   if negb ok1
+                   then ((RErrIO, w), e1)
+                   else let (ok2, e2) = io (ASync w.ws_name) e1 in
+                        if negb ok2
+                        then ((RErrIO, w), e2)
+                        else ((ROk0, { ws_name = w.ws_name; ws_base =
+                               w.ws_base; ws_min = w.ws_min; ws_limit =
+                               w.ws_limit; ws_n = n'; ws_off =
+                               (N.modulo (N.add w.ws_off total) two32);
+                               ws_hdr = false; ws_index_start = istart;
+                               ws_commit_idx = last0 }), e2)
+
+(** val seg_force_seal : wseg -> env -> (result * wseg) * env **)
+
+let seg_force_seal w e =
+  if N.ltb N0 w.ws_index_start
+  then ((ROk0, w), e)
+  else if N.eqb w.ws_n N0
+       then ((RErrOther, w), e)
+       else let buf =
+              N.add
+                (if w.ws_hdr then Npos (XO (XO (XO (XO (XO XH))))) else N0)
+                (index_frame_size w.ws_n)
+            in
+            let istart =
+              N.add
+                (N.add w.ws_off
+                  (if w.ws_hdr then Npos (XO (XO (XO (XO (XO XH))))) else N0))
+                (Npos (XO (XO (XO XH))))
+            in
+            let total = N.add buf (Npos (XO (XO (XO XH)))) in
+            let b = { pb_ents = []; pb_end =
+              (N.modulo (N.add w.ws_off total) two32); pb_seal = istart }
+            in
+            let (ok1, e1) = io (AWrite (w.ws_name, w.ws_off, total, b)) e in
+            if negb ok1
+            then ((RErrIO, w), e1)
+            else let (ok2, e2) = io (ASync w.ws_name) e1 in
+                 if negb ok2
+                 then ((RErrIO, w), e2)
+                 else ((ROk0, { ws_name = w.ws_name; ws_base = w.ws_base;
+                        ws_min = w.ws_min; ws_limit = w.ws_limit; ws_n =
+                        w.ws_n; ws_off =
+                        (N.modulo (N.add w.ws_off total) two32); ws_hdr =
+                        false; ws_index_start = istart; ws_commit_idx =
+                        (N.sub (N.add w.ws_base w.ws_n) (Npos XH)) }), e2)
+
+(** val seg_recover : seginfo -> env -> wseg option option **)
+
+let seg_recover si e =
+  match lookup (name_of si) e.e_disk.dk_files with
+  | Some f ->
+    let ents = cur_ents f in
+    let n0 = llen ents in
+    Some (Some { ws_name = (name_of si); ws_base = si.si_base; ws_min =
+    si.si_min; ws_limit = si.si_size_limit; ws_n = n0; ws_off = (cur_end f);
+    ws_hdr = (N.eqb (cur_end f) N0); ws_index_start = (cur_seal f);
+    ws_commit_idx =
+    (if N.eqb n0 N0 then N0 else N.sub (N.add si.si_base n0) (Npos XH)) })
+  | None -> None
+
+(** val seg_read : fname -> n -> n -> disk -> log option **)
+
+let seg_read n0 base idx d =
+  match lookup n0 d.dk_files with
+  | Some f -> nth_error (cur_ents f) (N.to_nat (N.sub idx base))
+  | None -> None
+
+(** val new_segment : cfg -> n -> n -> seginfo **)
+
+let new_segment c id base =
+  { si_id = id; si_base = base; si_min = base; si_max = N0; si_codec =
+    c.c_codec; si_index_start = N0; si_sealed = false; si_size_limit =
+    (N.modulo c.c_seg_size two32) }
+
+(** val delete_files : fname list -> env -> env **)
+
+let delete_files ns e =
+  fold_left (fun e0 n0 -> snd (io (ADelete n0) e0)) ns e
+
+type txn = { tx_next_id : n; tx_segs : seginfo list; tx_delete : fname list;
+             tx_create : seginfo option; tx_tail : wseg option }
+
+(** val create_next :
+    cfg -> n -> seginfo list -> n -> (n * seginfo list) * seginfo **)
+
+let create_next c next_id segs next_base =
+  let base =
+    match tail_info segs with
+    | Some t -> N.add t.si_max (Npos XH)
+    | None -> if N.ltb N0 next_base then next_base else Npos XH
+  in
+  let si = new_segment c next_id (N.modulo base two64) in
+  (((N.modulo (N.add next_id (Npos XH)) two64), (seg_set si segs)), si)
+
+(** val mutate_gen :
+    bool -> wal -> txn -> env -> ((result * wal) * env) * fname list **)
+
+let mutate_gen defer w t e =
+  let ps = { ps_next_id = t.tx_next_id; ps_segs = t.tx_segs } in
+  let (ok, e1) = io (ACommit ps) e in
+  if negb ok
+  then (((RErrIO, w), e1), [])
+  else (match t.tx_create with
+        | Some si ->
+          let (sw, e2) = seg_create si e1 in
+          (match sw with
+           | Some sw0 ->
+             let e3 = if defer then e2 else delete_files t.tx_delete e2 in
+             (((ROk0, { st_next_id = t.tx_next_id; st_segs = t.tx_segs;
+             st_tail = (Some sw0); st_rotate = w.st_rotate; st_failed =
+             w.st_failed; st_closed = w.st_closed }), e3),
+             (if defer then t.tx_delete else []))
+           | None ->
+             (((RErrIO, { st_next_id = w.st_next_id; st_segs = w.st_segs;
+               st_tail = w.st_tail; st_rotate = w.st_rotate; st_failed =
+               true; st_closed = w.st_closed }), e2), []))
+        | None ->
+          let e2 = if defer then e1 else delete_files t.tx_delete e1 in
+          (((ROk0, { st_next_id = t.tx_next_id; st_segs = t.tx_segs;
+          st_tail = t.tx_tail; st_rotate = w.st_rotate; st_failed =
+          w.st_failed; st_closed = w.st_closed }), e2),
+          (if defer then t.tx_delete else [])))
+
+(** val mutate : wal -> txn -> env -> (result * wal) * env **)
+
+let mutate w t e =
+  let (p, _) = mutate_gen false w t e in p
+
+(** val add_m : env -> (metrics -> metrics) -> env **)
+
+let add_m e f =
+  with_m e (f e.e_m)
+
+(** val rotate : cfg -> wal -> env -> wal * env **)
+
+let rotate c w e =
+  match w.st_rotate with
+  | Some istart ->
+    let w0 = { st_next_id = w.st_next_id; st_segs = w.st_segs; st_tail =
+      w.st_tail; st_rotate = None; st_failed = w.st_failed; st_closed =
+      w.st_closed }
+    in
+    if w.st_closed
+    then (w0, e)
+    else let e0 =
+           add_m e (fun m -> { m_bytes_written = m.m_bytes_written;
+             m_entries_written = m.m_entries_written; m_appends =
+             m.m_appends; m_bytes_read = m.m_bytes_read; m_entries_read =
+             m.m_entries_read; m_rotations = (N.add m.m_rotations (Npos XH));
+             m_head_trunc = m.m_head_trunc; m_tail_trunc = m.m_tail_trunc;
+             m_stable_gets = m.m_stable_gets; m_stable_sets =
+             m.m_stable_sets })
+         in
+         (match tail_info w.st_segs with
+          | Some t ->
+            let t' = { si_id = t.si_id; si_base = t.si_base; si_min =
+              t.si_min; si_max = (tail_last w.st_tail); si_codec =
+              t.si_codec; si_index_start = istart; si_sealed = true;
+              si_size_limit = t.si_size_limit }
+            in
+            let segs1 = seg_set t' w.st_segs in
+            let (p, si) = create_next c w.st_next_id segs1 N0 in
+            let (nid, segs2) = p in
+            let (p0, e') =
+              mutate w0 { tx_next_id = nid; tx_segs = segs2; tx_delete = [];
+                tx_create = (Some si); tx_tail = None } e0
+            in
+            let (_, w') = p0 in (w', e')
+          | None -> (w0, e0))
+  | None -> (w, e)
+
+(** val reset_first :
+    cfg -> wal -> n -> env -> ((result * wal) * env) * fname list **)
+
+let reset_first c w new_base e =
+  if N.ltb N0 (last_index w.st_segs w.st_tail)
+  then (((RErrOther, w), e), [])
+  else (match tail_info w.st_segs with
+        | Some t ->
+          if N.eqb t.si_base new_base
+          then mutate_gen true w { tx_next_id = w.st_next_id; tx_segs =
+                 w.st_segs; tx_delete = []; tx_create = None; tx_tail =
+                 w.st_tail } e
+          else let segs1 = seg_del t.si_base w.st_segs in
+               let (p, si) = create_next c w.st_next_id segs1 new_base in
+               let (nid, segs2) = p in
+               mutate_gen true w { tx_next_id = nid; tx_segs = segs2;
+                 tx_delete = ((name_of t) :: []); tx_create = (Some si);
+                 tx_tail = None } e
+        | None ->
+          let (p, si) = create_next c w.st_next_id w.st_segs new_base in
+          let (nid, segs2) = p in
+          mutate_gen true w { tx_next_id = nid; tx_segs = segs2; tx_delete =
+            []; tx_create = (Some si); tx_tail = None } e)
+
+(** val check_logs : n -> log list -> result * n **)
+
+let rec check_logs last0 = function
+| [] -> (ROk0, N0)
+| l :: r ->
+  if (&&) (N.ltb N0 last0)
+       (negb (N.eqb l.l_index (N.modulo (N.add last0 (Npos XH)) two64)))
+  then (RErrNonMono, N0)
+  else (match encode_log l with
+        | Some b ->
+          let (res, n0) = check_logs l.l_index r in
+          (res, (N.modulo (N.add (len b) n0) two64))
+        | None -> (RErrOther, N0))
+
+(** val store_logs : cfg -> wal -> log list -> env -> (result * wal) * env **)
+
+let store_logs c w ls e =
+  if w.st_closed
+  then ((RErrClosed, w), e)
+  else (match ls with
+        | [] -> ((ROk0, w), e)
+        | l0 :: _ ->
+          if w.st_failed
+          then ((RErrFailed, w), e)
+          else let last0 = last_index w.st_segs w.st_tail in
+               let go = fun w0 e0 ->
+                 let (res, nbytes) = check_logs last0 ls in
+                 (match res with
+                  | ROk0 ->
+                    (match w0.st_tail with
+                     | Some tw ->
+                       let (p, e1) = seg_append tw ls e0 in
+                       let (r, tw') = p in
+                       (match r with
+                        | ROk0 ->
+                          let e2 =
+                            add_m e1 (fun m -> { m_bytes_written =
+                              (N.modulo (N.add m.m_bytes_written nbytes)
+                                two64); m_entries_written =
+                              (N.add m.m_entries_written (llen ls));
+                              m_appends = (N.add m.m_appends (Npos XH));
+                              m_bytes_read = m.m_bytes_read; m_entries_read =
+                              m.m_entries_read; m_rotations = m.m_rotations;
+                              m_head_trunc = m.m_head_trunc; m_tail_trunc =
+                              m.m_tail_trunc; m_stable_gets =
+                              m.m_stable_gets; m_stable_sets =
+                              m.m_stable_sets })
+                          in
+                          ((ROk0, { st_next_id = w0.st_next_id; st_segs =
+                          w0.st_segs; st_tail = (Some tw'); st_rotate =
+                          (if N.ltb N0 tw'.ws_index_start
+                           then Some tw'.ws_index_start
+                           else None); st_failed = w0.st_failed; st_closed =
+                          w0.st_closed }), e2)
+                        | _ -> ((r, w0), e1))
+                     | None -> ((RErrOther, w0), e0))
+                  | _ -> ((res, w0), e0))
+               in
+               (match tail_info w.st_segs with
+                | Some ti ->
+                  if (&&) (N.eqb last0 N0)
+                       (negb (N.eqb l0.l_index ti.si_base))
+                  then let (p, dels) = reset_first c w l0.l_index e in
+                       let (p0, e1) = p in
+                       let (r, w1) = p0 in
+                       (match r with
+                        | ROk0 ->
+                          let (p1, e2) = go w1 e1 in
+                          (p1, (delete_files dels e2))
+                        | _ -> ((r, w1), e1))
+                  else go w e
+                | None -> ((RErrOther, w), e)))
+
+(** val head_scan :
+    n -> n -> seginfo list -> fname list -> n -> ((seginfo list * fname
+    list) * n) * seginfo option **)
+
+let rec head_scan new_min tl segs del ntr =
+  match segs with
+  | [] -> ((([], del), ntr), None)
+  | s :: r ->
+    let max_idx = if s.si_sealed then s.si_max else tl in
+    if N.leb new_min max_idx
+    then (((segs, del), ntr), (Some s))
+    else head_scan new_min tl r (app del ((name_of s) :: []))
+           (if N.leb s.si_min max_idx
+            then N.modulo
+                   (N.add ntr (N.add (N.sub max_idx s.si_min) (Npos XH)))
+                   two64
+            else ntr)
+
+(** val truncate_head : cfg -> wal -> n -> env -> (result * wal) * env **)
+
+let truncate_head c w new_min e =
+  let old_last = last_index w.st_segs w.st_tail in
+  let (p, head) = head_scan new_min (tail_last w.st_tail) w.st_segs [] N0 in
+  let (p0, ntr) = p in
+  let (rest, del) = p0 in
+  (match head with
+   | Some h ->
+     let ntr' = N.modulo (N.add ntr (sub64 new_min h.si_min)) two64 in
+     let h' = { si_id = h.si_id; si_base = h.si_base; si_min = new_min;
+       si_max = h.si_max; si_codec = h.si_codec; si_index_start =
+       h.si_index_start; si_sealed = h.si_sealed; si_size_limit =
+       h.si_size_limit }
+     in
+     let e0 =
+       add_m e (fun m -> { m_bytes_written = m.m_bytes_written;
+         m_entries_written = m.m_entries_written; m_appends = m.m_appends;
+         m_bytes_read = m.m_bytes_read; m_entries_read = m.m_entries_read;
+         m_rotations = m.m_rotations; m_head_trunc =
+         (N.modulo (N.add m.m_head_trunc ntr') two64); m_tail_trunc =
+         m.m_tail_trunc; m_stable_gets = m.m_stable_gets; m_stable_sets =
+         m.m_stable_sets })
+     in
+     mutate w { tx_next_id = w.st_next_id; tx_segs = (seg_set h' rest);
+       tx_delete = del; tx_create = None; tx_tail = w.st_tail } e0
+   | None ->
+     let (p1, si) =
+       create_next c w.st_next_id []
+         (N.modulo (N.add old_last (Npos XH)) two64)
+     in
+     let (nid, segs2) = p1 in
+     let e0 =
+       add_m e (fun m -> { m_bytes_written = m.m_bytes_written;
+         m_entries_written = m.m_entries_written; m_appends = m.m_appends;
+         m_bytes_read = m.m_bytes_read; m_entries_read = m.m_entries_read;
+         m_rotations = m.m_rotations; m_head_trunc =
+         (N.modulo (N.add m.m_head_trunc ntr) two64); m_tail_trunc =
+         m.m_tail_trunc; m_stable_gets = m.m_stable_gets; m_stable_sets =
+         m.m_stable_sets })
+     in
+     mutate w { tx_next_id = nid; tx_segs = segs2; tx_delete = del;
+       tx_create = (Some si); tx_tail = None } e0)
+
+(** val tail_scan :
+    n -> n -> seginfo list -> fname list -> n -> (seginfo list * fname
+    list) * n **)
+
+let rec tail_scan new_max lastidx rsegs del ntr =
+  match rsegs with
+  | [] -> (([], del), ntr)
+  | s :: r ->
+    if N.leb s.si_base new_max
+    then ((rsegs, del), ntr)
+    else let max_idx = if s.si_sealed then s.si_max else lastidx in
+         tail_scan new_max lastidx r (app del ((name_of s) :: []))
+           (N.modulo (N.add (N.add ntr (sub64 max_idx s.si_min)) (Npos XH))
+             two64)
+
+(** val truncate_tail : cfg -> wal -> n -> env -> (result * wal) * env **)
+
+let truncate_tail c w new_max e =
+  let lastidx = last_index w.st_segs w.st_tail in
+  let (p, ntr) = tail_scan new_max lastidx (rev w.st_segs) [] N0 in
+  let (rrest, del) = p in
+  let finish = fun t' ntr' rest tw e0 ->
+    let segs1 = seg_set t' rest in
+    let (p0, si) = create_next c w.st_next_id segs1 N0 in
+    let (nid, segs2) = p0 in
+    let e1 =
+      add_m e0 (fun m -> { m_bytes_written = m.m_bytes_written;
+        m_entries_written = m.m_entries_written; m_appends = m.m_appends;
+        m_bytes_read = m.m_bytes_read; m_entries_read = m.m_entries_read;
+        m_rotations = m.m_rotations; m_head_trunc = m.m_head_trunc;
+        m_tail_trunc = (N.modulo (N.add m.m_tail_trunc ntr') two64);
+        m_stable_gets = m.m_stable_gets; m_stable_sets = m.m_stable_sets })
+    in
+    mutate { st_next_id = w.st_next_id; st_segs = w.st_segs; st_tail = tw;
+      st_rotate = w.st_rotate; st_failed = w.st_failed; st_closed =
+      w.st_closed } { tx_next_id = nid; tx_segs = segs2; tx_delete = del;
+      tx_create = (Some si); tx_tail = None } e1
+  in
+  (match rrest with
+   | [] ->
+     let (p0, si) = create_next c w.st_next_id [] N0 in
+     let (nid, segs2) = p0 in
+     mutate w { tx_next_id = nid; tx_segs = segs2; tx_delete = del;
+       tx_create = (Some si); tx_tail = None } e
+   | t :: _ ->
+     let rest = rev rrest in
+     if t.si_sealed
+     then let t' = { si_id = t.si_id; si_base = t.si_base; si_min = t.si_min;
+            si_max = new_max; si_codec = t.si_codec; si_index_start =
+            t.si_index_start; si_sealed = true; si_size_limit =
+            t.si_size_limit }
+          in
+          finish t' (N.modulo (N.add ntr (sub64 t.si_max new_max)) two64)
+            rest w.st_tail e
+     else (match w.st_tail with
+           | Some tw ->
+             let (p0, e1) = seg_force_seal tw e in
+             let (r, tw') = p0 in
+             (match r with
+              | ROk0 ->
+                let t' = { si_id = t.si_id; si_base = t.si_base; si_min =
+                  t.si_min; si_max = new_max; si_codec = t.si_codec;
+                  si_index_start = tw'.ws_index_start; si_sealed = true;
+                  si_size_limit = t.si_size_limit }
+                in
+                finish t'
+                  (N.modulo (N.add ntr (sub64 lastidx new_max)) two64) rest
+                  (Some tw') e1
+              | _ ->
+                ((r, { st_next_id = w.st_next_id; st_segs = w.st_segs;
+                  st_tail = (Some tw'); st_rotate = w.st_rotate; st_failed =
+                  w.st_failed; st_closed = w.st_closed }), e1))
+           | None -> ((RErrOther, w), e)))
+
+(** val delete_range : cfg -> wal -> n -> n -> env -> (result * wal) * env **)
+
+let delete_range c w mn mx e =
+  if w.st_closed
+  then ((RErrClosed, w), e)
+  else if N.ltb mx mn
+       then ((ROk0, w), e)
+       else if w.st_failed
+            then ((RErrFailed, w), e)
+            else let first = first_index w.st_segs w.st_tail in
+                 let last0 = last_index w.st_segs w.st_tail in
+                 if (||) (N.ltb mx first) (N.ltb last0 mn)
+                 then ((ROk0, w), e)
+                 else if N.leb mn first
+                      then truncate_head c w
+                             (N.modulo (N.add mx (Npos XH)) two64) e
+                      else if N.leb last0 mx
+                           then truncate_tail c w (N.sub mn (Npos XH)) e
+                           else ((RErrMiddle, w), e)
+
+(** val codec_view : log -> log **)
+
+let codec_view l =
+  match encode_log l with
+  | Some b -> (match decode_log b with
+               | Some l' -> l'
+               | None -> l)
+  | None -> l
+
+(** val inc_read : env -> n -> bool -> env **)
+
+let inc_read e nbytes found =
+  add_m e (fun m -> { m_bytes_written = m.m_bytes_written;
+    m_entries_written = m.m_entries_written; m_appends = m.m_appends;
+    m_bytes_read =
+    (if found
+     then N.modulo (N.add m.m_bytes_read nbytes) two64
+     else m.m_bytes_read); m_entries_read =
+    (N.add m.m_entries_read (Npos XH)); m_rotations = m.m_rotations;
+    m_head_trunc = m.m_head_trunc; m_tail_trunc = m.m_tail_trunc;
+    m_stable_gets = m.m_stable_gets; m_stable_sets = m.m_stable_sets })
+
+(** val tail_lookup : wseg -> n -> disk -> log option **)
+
+let tail_lookup t idx d =
+  if (||) ((||) (N.ltb idx t.ws_base) (N.ltb idx t.ws_min))
+       (N.ltb t.ws_commit_idx idx)
+  then None
+  else seg_read t.ws_name t.ws_base idx d
+
+(** val get_log : wal -> n -> env -> result * env **)
+
+let get_log w idx e =
+  if w.st_closed
+  then (RErrClosed, e)
+  else let from_tail =
+         match w.st_tail with
+         | Some t ->
+           (match tail_info w.st_segs with
+            | Some ti ->
+              if N.leb ti.si_min idx then tail_lookup t idx e.e_disk else None
+            | None -> tail_lookup t idx e.e_disk)
+         | None -> None
+       in
+       (match from_tail with
+        | Some l -> ((RLog (codec_view l)), (inc_read e (enc_len l) true))
+        | None ->
+          (match find_segment w.st_segs idx with
+           | Some s ->
+             let is_tail =
+               match w.st_tail with
+               | Some t -> fname_eqb t.ws_name (name_of s)
+               | None -> false
+             in
+             let r =
+               if is_tail
+               then (match w.st_tail with
+                     | Some t -> tail_lookup t idx e.e_disk
+                     | None -> None)
+               else seg_read (name_of s) s.si_base idx e.e_disk
+             in
+             (match r with
+              | Some l ->
+                ((RLog (codec_view l)), (inc_read e (enc_len l) true))
+              | None -> (RErrNotFound, (inc_read e N0 false)))
+           | None -> (RErrNotFound, (inc_read e N0 false))))
+
+(** val first_index_op : wal -> result **)
+
+let first_index_op w =
+  if w.st_closed then RErrClosed else RVal (first_index w.st_segs w.st_tail)
+
+(** val last_index_op : wal -> result **)
+
+let last_index_op w =
+  if w.st_closed then RErrClosed else RVal (last_index w.st_segs w.st_tail)
+
+(** val inc_stable : env -> bool -> env **)
+
+let inc_stable e is_set =
+  add_m e (fun m -> { m_bytes_written = m.m_bytes_written;
+    m_entries_written = m.m_entries_written; m_appends = m.m_appends;
+    m_bytes_read = m.m_bytes_read; m_entries_read = m.m_entries_read;
+    m_rotations = m.m_rotations; m_head_trunc = m.m_head_trunc;
+    m_tail_trunc = m.m_tail_trunc; m_stable_gets =
+    (if is_set then m.m_stable_gets else N.add m.m_stable_gets (Npos XH));
+    m_stable_sets =
+    (if is_set then N.add m.m_stable_sets (Npos XH) else m.m_stable_sets) })
+
+(** val key_ok : bytes -> bool **)
+
+let key_ok k =
+  (&&) (N.ltb N0 (len k))
+    (N.leb (len k) (Npos (XO (XO (XO (XO (XO (XO (XO (XO (XO (XO (XO (XO (XO
+      (XO (XO XH)))))))))))))))))
+
+(** val set_stable : wal -> bytes -> bytes -> bool -> env -> result * env **)
+
+let set_stable w k v is_nil e =
+  if w.st_closed
+  then (RErrClosed, e)
+  else let e0 = inc_stable e true in
+       if negb (key_ok k)
+       then ((if is_nil then ROk0 else RErrOther), e0)
+       else let (ok, e1) = io (ASetStable (k, v)) e0 in
+            if ok then (ROk0, e1) else (RErrIO, e1)
+
+(** val get_stable : wal -> bytes -> env -> result * env **)
+
+let get_stable w k e =
+  if w.st_closed
+  then (RErrClosed, e)
+  else ((RBytes (kv_get k e.e_disk.dk_stable)), (inc_stable e false))
+
+(** val set_uint64 : wal -> bytes -> n -> env -> result * env **)
+
+let set_uint64 w k v e =
+  set_stable w k (le64 v) false e
+
+(** val get_uint64 : wal -> bytes -> env -> result * env **)
+
+let get_uint64 w k e =
+  let (r, e') = get_stable w k e in
+  (match r with
+   | RBytes b ->
+     if N.eqb (len b) N0
+     then ((RVal N0), e')
+     else if negb (N.eqb (len b) (Npos (XO (XO (XO XH)))))
+          then (RErrOther, e')
+          else ((RVal (rd64 b)), e')
+   | _ -> (r, e'))
+
+(** val close : wal -> wal **)
+
+let close w =
+  { st_next_id = w.st_next_id; st_segs = w.st_segs; st_tail = w.st_tail;
+    st_rotate = None; st_failed = w.st_failed; st_closed = true }
+
+type open_res =
+| OOk of wal
+| OErr of result
+
+(** val open_segs :
+    cfg -> seginfo list -> seginfo list -> env -> ((result * seginfo
+    list) * wseg option) * env **)
+
+let rec open_segs c segs acc e =
+  match segs with
+  | [] -> (((ROk0, (rev_append acc [])), None), e)
+  | si :: r ->
+    if negb (N.eqb si.si_codec c.c_codec)
+    then (((RErrOther, (rev_append acc [])), None), e)
+    else if negb si.si_sealed
+         then (match r with
+               | [] ->
+                 let rec0 = seg_recover si e in
+                 let (sw, e1) =
+                   match rec0 with
+                   | Some x -> (x, e)
+                   | None -> seg_create si e
+                 in
+                 (match sw with
+                  | Some sw0 ->
+                    if N.ltb N0 sw0.ws_index_start
+                    then let si' = { si_id = si.si_id; si_base = si.si_base;
+                           si_min = si.si_min; si_max = sw0.ws_commit_idx;
+                           si_codec = si.si_codec; si_index_start =
+                           sw0.ws_index_start; si_sealed = true;
+                           si_size_limit = si.si_size_limit }
+                         in
+                         (((ROk0, (rev_append acc (si' :: []))), None), e1)
+                    else (((ROk0, (rev_append acc (si :: []))), (Some sw0)),
+                           e1)
+                  | None -> (((RErrIO, (rev_append acc [])), None), e1))
+               | _ :: _ -> (((RErrOther, (rev_append acc [])), None), e))
+         else (match lookup (name_of si) e.e_disk.dk_files with
+               | Some f ->
+                 if N.eqb (cur_end f) N0
+                 then (((RErrCorrupt, (rev_append acc [])), None), e)
+                 else open_segs c r (si :: acc) e
+               | None -> (((RErrIO, (rev_append acc [])), None), e))
+
+(** val listed : seginfo list -> fname -> bool **)
+
+let listed segs n0 =
+  existsb (fun s -> fname_eqb (name_of s) n0) segs
+
+(** val open_wal : cfg -> env -> open_res * env **)
+
+let open_wal c e =
+  if (&&) (negb (N.leb firstExternalCodecID c.c_codec))
+       (negb (N.eqb c.c_codec binaryCodecID))
+  then ((OErr RErrOther), e)
+  else let (ok0, e0) =
+         if e.e_disk.dk_inited then (true, e) else io AInitMeta e
+       in
+       if negb ok0
+       then ((OErr RErrIO), e0)
+       else let ps =
+              match e0.e_disk.dk_meta with
+              | Some ps -> ps
+              | None -> { ps_next_id = N0; ps_segs = [] }
+            in
+            let on_disk = map fst e0.e_disk.dk_files in
+            let (p, e1) = open_segs c ps.ps_segs [] e0 in
+            let (p0, tail) = p in
+            let (r, segs) = p0 in
+            (match r with
+             | ROk0 ->
+               let garbage =
+                 filter (fun n0 -> negb (listed ps.ps_segs n0)) on_disk
+               in
+               (match tail with
+                | Some tw ->
+                  let e2 = delete_files garbage e1 in
+                  ((OOk { st_next_id = ps.ps_next_id; st_segs = segs;
+                  st_tail = (Some tw); st_rotate = None; st_failed = false;
+                  st_closed = false }), e2)
+                | None ->
+                  let base =
+                    match tail_info segs with
+                    | Some t -> N.modulo (N.add t.si_max (Npos XH)) two64
+                    | None -> Npos XH
+                  in
+                  let si = new_segment c ps.ps_next_id base in
+                  let nid = N.modulo (N.add ps.ps_next_id (Npos XH)) two64 in
+                  let segs' = seg_set si segs in
+                  let (ok1, e2) =
+                    io (ACommit { ps_next_id = nid; ps_segs = segs' }) e1
+                  in
+                  if negb ok1
+                  then ((OErr RErrIO), e2)
+                  else let (sw, e3) = seg_create si e2 in
+                       (match sw with
+                        | Some sw0 ->
+                          let e4 = delete_files garbage e3 in
+                          ((OOk { st_next_id = nid; st_segs = segs';
+                          st_tail = (Some sw0); st_rotate = None; st_failed =
+                          false; st_closed = false }), e4)
+                        | None -> ((OErr RErrIO), e3)))
+             | _ -> ((OErr r), e1))
+
+type rst = { r_cfg : cfg; r_wal : wal option; r_env : env; r_mark : nat;
+             r_base : disk; r_base_n : nat }
+
+(** val s_closed : str **)
+
+let s_closed =
+  (Npos (XI (XI (XO (XO (XO (XI XH))))))) :: ((Npos (XO (XO (XI (XI (XO (XI
+    XH))))))) :: ((Npos (XI (XI (XI (XI (XO (XI XH))))))) :: ((Npos (XI (XI
+    (XO (XO (XI (XI XH))))))) :: ((Npos (XI (XO (XI (XO (XO (XI
+    XH))))))) :: ((Npos (XO (XO (XI (XO (XO (XI XH))))))) :: [])))))
+
+(** val s_nf0 : str **)
+
+let s_nf0 =
+  (Npos (XO (XI (XI (XI (XO (XI XH))))))) :: ((Npos (XO (XI (XI (XO (XO (XI
+    XH))))))) :: [])
+
+(** val s_nonmono0 : str **)
+
+let s_nonmono0 =
+  (Npos (XO (XI (XI (XI (XO (XI XH))))))) :: ((Npos (XI (XI (XI (XI (XO (XI
+    XH))))))) :: ((Npos (XO (XI (XI (XI (XO (XI XH))))))) :: ((Npos (XI (XO
+    (XI (XI (XO (XI XH))))))) :: ((Npos (XI (XI (XI (XI (XO (XI
+    XH))))))) :: ((Npos (XO (XI (XI (XI (XO (XI XH))))))) :: ((Npos (XI (XI
+    (XI (XI (XO (XI XH))))))) :: []))))))
+
+(** val s_middle : str **)
+
+let s_middle =
+  (Npos (XI (XO (XI (XI (XO (XI XH))))))) :: ((Npos (XI (XO (XO (XI (XO (XI
+    XH))))))) :: ((Npos (XO (XO (XI (XO (XO (XI XH))))))) :: ((Npos (XO (XO
+    (XI (XO (XO (XI XH))))))) :: ((Npos (XO (XO (XI (XI (XO (XI
+    XH))))))) :: ((Npos (XI (XO (XI (XO (XO (XI XH))))))) :: [])))))
+
+(** val s_sealed : str **)
+
+let s_sealed =
+  (Npos (XI (XI (XO (XO (XI (XI XH))))))) :: ((Npos (XI (XO (XI (XO (XO (XI
+    XH))))))) :: ((Npos (XI (XO (XO (XO (XO (XI XH))))))) :: ((Npos (XO (XO
+    (XI (XI (XO (XI XH))))))) :: ((Npos (XI (XO (XI (XO (XO (XI
+    XH))))))) :: ((Npos (XO (XO (XI (XO (XO (XI XH))))))) :: [])))))
+
+(** val s_toobig0 : str **)
+
+let s_toobig0 =
+  (Npos (XO (XO (XI (XO (XI (XI XH))))))) :: ((Npos (XI (XI (XI (XI (XO (XI
+    XH))))))) :: ((Npos (XI (XI (XI (XI (XO (XI XH))))))) :: ((Npos (XO (XI
+    (XO (XO (XO (XI XH))))))) :: ((Npos (XI (XO (XO (XI (XO (XI
+    XH))))))) :: ((Npos (XI (XI (XI (XO (XO (XI XH))))))) :: [])))))
+
+(** val s_failed : str **)
+
+let s_failed =
+  (Npos (XO (XI (XI (XO (XO (XI XH))))))) :: ((Npos (XI (XO (XO (XO (XO (XI
+    XH))))))) :: ((Npos (XI (XO (XO (XI (XO (XI XH))))))) :: ((Npos (XO (XO
+    (XI (XI (XO (XI XH))))))) :: ((Npos (XI (XO (XI (XO (XO (XI
+    XH))))))) :: ((Npos (XO (XO (XI (XO (XO (XI XH))))))) :: [])))))
+
+(** val s_noop : str **)
+
+let s_noop =
+  (Npos (XO (XI (XI (XI (XO (XI XH))))))) :: ((Npos (XI (XI (XI (XI (XO (XI
+    XH))))))) :: ((Npos (XI (XI (XI (XO (XI (XI XH))))))) :: ((Npos (XI (XO
+    (XO (XO (XO (XI XH))))))) :: ((Npos (XO (XO (XI (XI (XO (XI
+    XH))))))) :: []))))
+
+(** val colon0 : n **)
+
+let colon0 =
+  Npos (XO (XI (XO (XI (XI XH)))))
+
+(** val dot : n **)
+
+let dot =
+  Npos (XO (XI (XI (XI (XO XH)))))
+
+(** val bang : n **)
+
+let bang =
+  Npos (XI (XO (XO (XO (XO XH)))))
+
+(** val comma : n **)
+
+let comma =
+  Npos (XO (XO (XI (XI (XO XH)))))
+
+(** val show_result : result -> str **)
+
+let show_result = function
+| ROk0 -> s_ok
+| RErrClosed -> s_closed
+| RErrNotFound -> s_nf0
+| RErrNonMono -> s_nonmono0
+| RErrMiddle -> s_middle
+| RErrSealed -> s_sealed
+| RErrTooBig -> s_toobig0
+| RErrFailed -> s_failed
+| RVal v -> n_to_hex v
+| RLog l ->
+  app s_ok
+    (colon0 :: (flat_map (fun c ->
+                 if N.eqb c sp then comma :: [] else c :: [])
+                 (show_log true l)))
+| RBytes b -> bytes_to_hex b
+| _ -> s_err
+
+(** val show_name : fname -> str **)
+
+let show_name n0 =
+  app (n_to_hex (fst n0)) (dot :: (n_to_hex (snd n0)))
+
+(** val show_act : act -> str **)
+
+let rec show_act = function
+| ACreate (n0, size) ->
+  (Npos (XI (XI (XO (XO (XO (XO
+    XH))))))) :: (app (show_name n0) (dot :: (n_to_hex size)))
+| AWrite (n0, off, l, _) ->
+  (Npos (XI (XI (XI (XO (XI (XO
+    XH))))))) :: (app (show_name n0)
+                   (dot :: (app (n_to_hex off) (dot :: (n_to_hex l)))))
+| ASync n0 -> (Npos (XI (XI (XO (XO (XI (XO XH))))))) :: (show_name n0)
+| ADelete n0 -> (Npos (XO (XO (XI (XO (XO (XO XH))))))) :: (show_name n0)
+| ACommit _ -> (Npos (XI (XO (XI (XI (XO (XO XH))))))) :: []
+| ASetStable (_, _) -> (Npos (XI (XI (XO (XI (XO (XO XH))))))) :: []
+| AInitMeta -> (Npos (XI (XO (XO (XI (XO (XO XH))))))) :: []
+| AFail a' -> bang :: (show_act a')
+
+(** val str_leb : str -> str -> bool **)
+
+let rec str_leb a b =
+  match a with
+  | [] -> true
+  | x :: a' ->
+    (match b with
+     | [] -> false
+     | y :: b' ->
+       if N.ltb x y then true else if N.ltb y x then false else str_leb a' b')
+
+(** val insert_str : str -> str list -> str list **)
+
+let rec insert_str s l = match l with
+| [] -> s :: []
+| x :: r -> if str_leb s x then s :: l else x :: (insert_str s r)
+
+(** val sort_strs : str list -> str list **)
+
+let sort_strs l =
+  fold_right insert_str [] l
+
+(** val is_delete0 : str -> bool **)
+
+let is_delete0 = function
+| [] -> false
+| n0 :: _ ->
+  (match n0 with
+   | N0 -> false
+   | Npos p ->
+     (match p with
+      | XO p0 ->
+        (match p0 with
+         | XO p1 ->
+           (match p1 with
+            | XI p2 ->
+              (match p2 with
+               | XO p3 ->
+                 (match p3 with
+                  | XO p4 ->
+                    (match p4 with
+                     | XO p5 -> (match p5 with
+                                 | XH -> true
+                                 | _ -> false)
+                     | _ -> false)
+                  | _ -> false)
+               | _ -> false)
+            | _ -> false)
+         | _ -> false)
+      | _ -> false))
+
+(** val canon_acts : str list -> str list -> str list **)
+
+let rec canon_acts l run =
+  match l with
+  | [] -> sort_strs run
+  | x :: r ->
+    if is_delete0 x
+    then canon_acts r (x :: run)
+    else app (sort_strs run) (x :: (canon_acts r []))
+
+(** val show_trace : act list -> str **)
+
+let show_trace acts_oldest_first = match acts_oldest_first with
+| [] -> (Npos (XI (XO (XI (XI (XO XH)))))) :: []
+| _ :: _ ->
+  fold_right (fun s acc ->
+    match acc with
+    | [] -> s
+    | _ :: _ -> app s (comma :: acc)) []
+    (canon_acts (map show_act acts_oldest_first) [])
+
+(** val show_seg : seginfo -> str **)
+
+let show_seg s =
+  app (n_to_hex s.si_id)
+    (dot :: (app (n_to_hex s.si_base)
+              (dot :: (app (n_to_hex s.si_min)
+                        (dot :: (app (n_to_hex s.si_max)
+                                  (dot :: (app (n_to_hex s.si_index_start)
+                                            (dot :: (app
+                                                      (if s.si_sealed
+                                                       then (Npos (XI (XO (XO
+                                                              (XO (XI
+                                                              XH)))))) :: []
+                                                       else (Npos (XO (XO (XO
+                                                              (XO (XI
+                                                              XH)))))) :: [])
+                                                      (dot :: (n_to_hex
+                                                                s.si_codec))))))))))))
+
+(** val show_pstate : pstate option -> str **)
+
+let show_pstate = function
+| Some ps ->
+  app (n_to_hex ps.ps_next_id)
+    (flat_map (fun s -> comma :: (show_seg s)) ps.ps_segs)
+| None -> (Npos (XI (XO (XI (XI (XO XH)))))) :: []
+
+(** val show_metrics : metrics -> str **)
+
+let show_metrics m =
+  fold_right (fun s acc ->
+    match acc with
+    | [] -> s
+    | _ :: _ -> app s (comma :: acc)) []
+    (map n_to_hex
+      (m.m_bytes_written :: (m.m_entries_written :: (m.m_appends :: (m.m_bytes_read :: (m.m_entries_read :: (m.m_rotations :: (m.m_head_trunc :: (m.m_tail_trunc :: (m.m_stable_gets :: (m.m_stable_sets :: [])))))))))))
+
+(** val name_leb : fname -> fname -> bool **)
+
+let name_leb a b =
+  if N.ltb (fst a) (fst b)
+  then true
+  else if N.ltb (fst b) (fst a) then false else N.leb (snd a) (snd b)
+
+(** val insert_name : fname -> fname list -> fname list **)
+
+let rec insert_name n0 l = match l with
+| [] -> n0 :: []
+| x :: r -> if name_leb n0 x then n0 :: l else x :: (insert_name n0 r)
+
+(** val show_dir : disk -> str **)
+
+let show_dir d =
+  match d.dk_files with
+  | [] -> (Npos (XI (XO (XI (XI (XO XH)))))) :: []
+  | p :: l ->
+    fold_right (fun s acc ->
+      match acc with
+      | [] -> s
+      | _ :: _ -> app s (comma :: acc)) []
+      (map show_name (fold_right insert_name [] (map fst (p :: l))))
+
+(** val parse_logs : nat -> str list -> (log list * str list) option **)
+
+let rec parse_logs k ts =
+  match k with
+  | O -> Some ([], ts)
+  | S k' ->
+    (match ts with
+     | [] -> None
+     | a :: l ->
+       (match l with
+        | [] -> None
+        | b :: l0 ->
+          (match l0 with
+           | [] -> None
+           | c :: l1 ->
+             (match l1 with
+              | [] -> None
+              | d :: l2 ->
+                (match l2 with
+                 | [] -> None
+                 | e :: l3 ->
+                   (match l3 with
+                    | [] -> None
+                    | f :: l4 ->
+                      (match l4 with
+                       | [] -> None
+                       | g :: l5 ->
+                         (match l5 with
+                          | [] -> None
+                          | h :: r ->
+                            (match parse_log
+                                     (a :: (b :: (c :: (d :: (e :: (f :: (g :: (h :: [])))))))) with
+                             | Some l6 ->
+                               (match parse_logs k' r with
+                                | Some p ->
+                                  let (ls, rest) = p in
+                                  Some ((l6 :: ls), rest)
+                                | None -> None)
+                             | None -> None)))))))))
+
+(** val parse_names : nat -> str list -> (fname list * str list) option **)
+
+let rec parse_names k ts =
+  match k with
+  | O -> Some ([], ts)
+  | S k' ->
+    (match ts with
+     | [] -> None
+     | a :: l ->
+       (match l with
+        | [] -> None
+        | b :: r ->
+          (match hex_to_N a with
+           | Some a0 ->
+             (match hex_to_N b with
+              | Some b0 ->
+                (match parse_names k' r with
+                 | Some p ->
+                   let (ns, rest) = p in Some (((a0, b0) :: ns), rest)
+                 | None -> None)
+              | None -> None)
+           | None -> None)))
+
+(** val chr0 : n -> str -> bool **)
+
+let chr0 c s =
+  str_eqb s (c :: [])
+
+(** val settle : rst -> rst **)
+
+let settle st =
+  match st.r_wal with
+  | Some w ->
+    (match w.st_rotate with
+     | Some _ ->
+       let (w', e') = rotate st.r_cfg w st.r_env in
+       { r_cfg = st.r_cfg; r_wal = (Some w'); r_env = e'; r_mark = st.r_mark;
+       r_base = st.r_base; r_base_n = st.r_base_n }
+     | None -> st)
+  | None -> st
+
+(** val set_we : rst -> wal -> env -> rst **)
+
+let set_we st w e =
+  { r_cfg = st.r_cfg; r_wal = (Some w); r_env = e; r_mark = st.r_mark;
+    r_base = st.r_base; r_base_n = st.r_base_n }
+
+(** val set_e : rst -> env -> rst **)
+
+let set_e st e =
+  { r_cfg = st.r_cfg; r_wal = st.r_wal; r_env = e; r_mark = st.r_mark;
+    r_base = st.r_base; r_base_n = st.r_base_n }
+
+(** val audit : nat -> wal -> env -> n -> n -> str list -> str list **)
+
+let rec audit fuel w e i last0 acc =
+  match fuel with
+  | O -> rev_append acc []
+  | S f ->
+    if N.ltb last0 i
+    then rev_append acc []
+    else let (r, _) = get_log w i e in
+         audit f w e (N.add i (Npos XH)) last0 ((show_result r) :: acc)
+
+(** val run_ops0 : nat -> rst -> str list -> str list -> str list **)
+
+let rec run_ops0 fuel st ts acc =
+  match fuel with
+  | O -> rev_append acc []
+  | S fuel' ->
+    (match ts with
+     | [] -> rev_append acc []
+     | op :: r ->
+       let bad = rev_append (s_bad :: acc) [] in
+       if chr0 (Npos (XI (XI (XI (XI (XO (XO XH))))))) op
+       then let (res, e') = open_wal st.r_cfg (with_m st.r_env zero_metrics)
+            in
+            (match res with
+             | OOk w -> run_ops0 fuel' (set_we st w e') r (s_ok :: acc)
+             | OErr _ ->
+               run_ops0 fuel' { r_cfg = st.r_cfg; r_wal = None; r_env = e';
+                 r_mark = st.r_mark; r_base = st.r_base; r_base_n =
+                 st.r_base_n } r (s_err :: acc))
+       else if chr0 (Npos (XI (XI (XO (XO (XI (XO XH))))))) op
+            then (match r with
+                  | [] -> bad
+                  | k :: r1 ->
+                    (match hex_to_N k with
+                     | Some k0 ->
+                       (match parse_logs (N.to_nat k0) r1 with
+                        | Some p ->
+                          let (ls, r2) = p in
+                          let st1 = settle st in
+                          (match st1.r_wal with
+                           | Some w ->
+                             let (p0, e') =
+                               store_logs st1.r_cfg w ls st1.r_env
+                             in
+                             let (res, w') = p0 in
+                             run_ops0 fuel' (set_we st1 w' e') r2
+                               ((show_result res) :: acc)
+                           | None -> run_ops0 fuel' st1 r2 (s_noop :: acc))
+                        | None -> bad)
+                     | None -> bad))
+            else if chr0 (Npos (XO (XO (XI (XO (XO (XO XH))))))) op
+                 then (match r with
+                       | [] -> bad
+                       | a :: l ->
+                         (match l with
+                          | [] -> bad
+                          | b :: r1 ->
+                            (match hex_to_N a with
+                             | Some a0 ->
+                               (match hex_to_N b with
+                                | Some b0 ->
+                                  let st1 = settle st in
+                                  (match st1.r_wal with
+                                   | Some w ->
+                                     let (p, e') =
+                                       delete_range st1.r_cfg w a0 b0
+                                         st1.r_env
+                                     in
+                                     let (res, w') = p in
+                                     run_ops0 fuel' (set_we st1 w' e') r1
+                                       ((show_result res) :: acc)
+                                   | None ->
+                                     run_ops0 fuel' st1 r1 (s_noop :: acc))
+                                | None -> bad)
+                             | None -> bad)))
+                 else if chr0 (Npos (XI (XI (XI (XO (XO (XO XH))))))) op
+                      then (match r with
+                            | [] -> bad
+                            | a :: r1 ->
+                              (match hex_to_N a with
+                               | Some a0 ->
+                                 (match st.r_wal with
+                                  | Some w ->
+                                    let (res, e') = get_log w a0 st.r_env in
+                                    run_ops0 fuel' (set_e st e') r1
+                                      ((show_result res) :: acc)
+                                  | None ->
+                                    run_ops0 fuel' st r1 (s_noop :: acc))
+                               | None -> bad))
+                      else if chr0 (Npos (XO (XI (XI (XO (XO (XO XH))))))) op
+                           then (match st.r_wal with
+                                 | Some w ->
+                                   run_ops0 fuel' st r
+                                     ((show_result (first_index_op w)) :: acc)
+                                 | None -> run_ops0 fuel' st r (s_noop :: acc))
+                           else if chr0 (Npos (XO (XO (XI (XI (XO (XO
+                                     XH))))))) op
+                                then (match st.r_wal with
+                                      | Some w ->
+                                        run_ops0 fuel' st r
+                                          ((show_result (last_index_op w)) :: acc)
+                                      | None ->
+                                        run_ops0 fuel' st r (s_noop :: acc))
+                                else if chr0 (Npos (XI (XO (XO (XO (XO (XO
+                                          XH))))))) op
+                                     then (match st.r_wal with
+                                           | Some w ->
+                                             if w.st_closed
+                                             then run_ops0 fuel' st r
+                                                    (s_closed :: acc)
+                                             else let f =
+                                                    first_index w.st_segs
+                                                      w.st_tail
+                                                  in
+                                                  let l =
+                                                    last_index w.st_segs
+                                                      w.st_tail
+                                                  in
+                                                  let es =
+                                                    if N.eqb f N0
+                                                    then []
+                                                    else audit (S
+                                                           (N.to_nat
+                                                             (N.sub l f))) w
+                                                           st.r_env f l []
+                                                  in
+                                                  run_ops0 fuel' st r
+                                                    ((app (n_to_hex f)
+                                                       (dot :: (app
+                                                                 (n_to_hex l)
+                                                                 (flat_map
+                                                                   (fun s ->
+                                                                   comma :: s)
+                                                                   es)))) :: acc)
+                                           | None ->
+                                             run_ops0 fuel' st r
+                                               (s_noop :: acc))
+                                     else if chr0 (Npos (XI (XI (XO (XI (XO
+                                               (XO XH))))))) op
+                                          then (match r with
+                                                | [] -> bad
+                                                | k :: l ->
+                                                  (match l with
+                                                   | [] -> bad
+                                                   | v :: r1 ->
+                                                     let is_nil =
+                                                       str_eqb v ((Npos (XO
+                                                         (XI (XI (XI (XO (XI
+                                                         XH))))))) :: ((Npos
+                                                         (XI (XO (XO (XI (XO
+                                                         (XI
+                                                         XH))))))) :: ((Npos
+                                                         (XO (XO (XI (XI (XO
+                                                         (XI
+                                                         XH))))))) :: [])))
+                                                     in
+                                                     (match hex_to_bytes k with
+                                                      | Some k0 ->
+                                                        (match if is_nil
+                                                               then Some []
+                                                               else hex_to_bytes
+                                                                    v with
+                                                         | Some v0 ->
+                                                           (match st.r_wal with
+                                                            | Some w ->
+                                                              let (res, e') =
+                                                                set_stable w
+                                                                  k0 v0
+                                                                  is_nil
+                                                                  st.r_env
+                                                              in
+                                                              run_ops0 fuel'
+                                                                (set_e st e')
+                                                                r1
+                                                                ((show_result
+                                                                   res) :: acc)
+                                                            | None ->
+                                                              run_ops0 fuel'
+                                                                st r1
+                                                                (s_noop :: acc))
+                                                         | None -> bad)
+                                                      | None -> bad)))
+                                          else if chr0 (Npos (XI (XI (XO (XI
+                                                    (XO (XI XH))))))) op
+                                               then (match r with
+                                                     | [] -> bad
+                                                     | k :: r1 ->
+                                                       (match hex_to_bytes k with
+                                                        | Some k0 ->
+                                                          (match st.r_wal with
+                                                           | Some w ->
+                                                             let (res, e') =
+                                                               get_stable w
+                                                                 k0 st.r_env
+                                                             in
+                                                             run_ops0 fuel'
+                                                               (set_e st e')
+                                                               r1
+                                                               ((show_result
+                                                                  res) :: acc)
+                                                           | None ->
+                                                             run_ops0 fuel'
+                                                               st r1
+                                                               (s_noop :: acc))
+                                                        | None -> bad))
+                                               else if chr0 (Npos (XI (XO (XI
+                                                         (XO (XI (XO
+                                                         XH))))))) op
+                                                    then (match r with
+                                                          | [] -> bad
+                                                          | k :: l ->
+                                                            (match l with
+                                                             | [] -> bad
+                                                             | v :: r1 ->
+                                                               (match 
+                                                                hex_to_bytes k with
+                                                                | Some k0 ->
+                                                                  (match 
+                                                                   hex_to_N v with
+                                                                   | Some v0 ->
+                                                                    (match st.r_wal with
+                                                                    | Some w ->
+                                                                    let (
+                                                                    res, e') =
+                                                                    set_uint64
+                                                                    w k0 v0
+                                                                    st.r_env
+                                                                    in
+                                                                    run_ops0
+                                                                    fuel'
+                                                                    (set_e st
+                                                                    e') r1
+                                                                    ((show_result
+                                                                    res) :: acc)
+                                                                    | None ->
+                                                                    run_ops0
+                                                                    fuel' st
+                                                                    r1
+                                                                    (s_noop :: acc))
+                                                                   | None ->
+                                                                    bad)
+                                                                | None -> bad)))
+                                                    else if chr0 (Npos (XI
+                                                              (XO (XI (XO (XI
+                                                              (XI XH))))))) op
+                                                         then (match r with
+                                                               | [] -> bad
+                                                               | k :: r1 ->
+                                                                 (match 
+                                                                  hex_to_bytes
+                                                                    k with
+                                                                  | Some k0 ->
+                                                                    (match st.r_wal with
+                                                                    | Some w ->
+                                                                    let (
+                                                                    res, e') =
+                                                                    get_uint64
+                                                                    w k0
+                                                                    st.r_env
+                                                                    in
+                                                                    run_ops0
+                                                                    fuel'
+                                                                    (set_e st
+                                                                    e') r1
+                                                                    ((show_result
+                                                                    res) :: acc)
+                                                                    | None ->
+                                                                    run_ops0
+                                                                    fuel' st
+                                                                    r1
+                                                                    (s_noop :: acc))
+                                                                  | None ->
+                                                                    bad))
+                                                         else if chr0 (Npos
+                                                                   (XO (XO
+                                                                   (XO (XI
+                                                                   (XI (XO
+                                                                   XH)))))))
+                                                                   op
+                                                              then (match st.r_wal with
+                                                                    | Some w ->
+                                                                    run_ops0
+                                                                    fuel'
+                                                                    (set_we
+                                                                    st
+                                                                    (close w)
+                                                                    st.r_env)
+                                                                    r
+                                                                    (s_ok :: acc)
+                                                                    | None ->
+                                                                    run_ops0
+                                                                    fuel' st
+                                                                    r
+                                                                    (s_noop :: acc))
+                                                              else if 
+                                                                    chr0
+                                                                    (Npos (XI
+                                                                    (XI (XI
+                                                                    (XO (XI
+                                                                    (XO
+                                                                    XH)))))))
+                                                                    op
+                                                                   then 
+                                                                    run_ops0
+                                                                    fuel'
+                                                                    (settle
+                                                                    st) r acc
+                                                                   else 
+                                                                    if 
+                                                                    chr0
+                                                                    (Npos (XI
+                                                                    (XO (XI
+                                                                    (XI (XO
+                                                                    (XO
+                                                                    XH)))))))
+                                                                    op
+                                                                    then 
+                                                                    run_ops0
+                                                                    fuel' st
+                                                                    r
+                                                                    ((show_metrics
+                                                                    st.r_env.e_m) :: acc)
+                                                                    else 
+                                                                    if 
+                                                                    chr0
+                                                                    (Npos (XO
+                                                                    (XO (XO
+                                                                    (XO (XI
+                                                                    (XO
+                                                                    XH)))))))
+                                                                    op
+                                                                    then 
+                                                                    run_ops0
+                                                                    fuel' st
+                                                                    r
+                                                                    ((show_pstate
+                                                                    st.r_env.e_disk.dk_meta) :: acc)
+                                                                    else 
+                                                                    if 
+                                                                    chr0
+                                                                    (Npos (XI
+                                                                    (XO (XO
+                                                                    (XI (XI
+                                                                    (XO
+                                                                    XH)))))))
+                                                                    op
+                                                                    then 
+                                                                    run_ops0
+                                                                    fuel' st
+                                                                    r
+                                                                    ((show_dir
+                                                                    st.r_env.e_disk) :: acc)
+                                                                    else 
+                                                                    if 
+                                                                    chr0
+                                                                    (Npos (XO
+                                                                    (XO (XI
+                                                                    (XO (XI
+                                                                    (XO
+                                                                    XH)))))))
+                                                                    op
+                                                                    then 
+                                                                    let all =
+                                                                    rev_append
+                                                                    st.r_env.e_acts
+                                                                    []
+                                                                    in
+                                                                    run_ops0
+                                                                    fuel'
+                                                                    { r_cfg =
+                                                                    st.r_cfg;
+                                                                    r_wal =
+                                                                    st.r_wal;
+                                                                    r_env =
+                                                                    st.r_env;
+                                                                    r_mark =
+                                                                    (length
+                                                                    all);
+                                                                    r_base =
+                                                                    st.r_base;
+                                                                    r_base_n =
+                                                                    st.r_base_n }
+                                                                    r
+                                                                    ((show_trace
+                                                                    (skipn
+                                                                    st.r_mark
+                                                                    all)) :: acc)
+                                                                    else 
+                                                                    if 
+                                                                    chr0
+                                                                    (Npos (XI
+                                                                    (XO (XO
+                                                                    (XO (XO
+                                                                    XH))))))
+                                                                    op
+                                                                    then 
+                                                                    (match r with
+                                                                    | [] ->
+                                                                    bad
+                                                                    | k :: r1 ->
+                                                                    (match 
+                                                                    hex_to_N k with
+                                                                    | Some k0 ->
+                                                                    let e =
+                                                                    st.r_env
+                                                                    in
+                                                                    run_ops0
+                                                                    fuel'
+                                                                    (set_e st
+                                                                    { e_acts =
+                                                                    e.e_acts;
+                                                                    e_disk =
+                                                                    e.e_disk;
+                                                                    e_fault =
+                                                                    (Some
+                                                                    (N.to_nat
+                                                                    k0));
+                                                                    e_m =
+                                                                    e.e_m })
+                                                                    r1 acc
+                                                                    | None ->
+                                                                    bad))
+                                                                    else 
+                                                                    if 
+                                                                    chr0
+                                                                    (Npos (XI
+                                                                    (XI (XO
+                                                                    (XO (XO
+                                                                    (XO
+                                                                    XH)))))))
+                                                                    op
+                                                                    then 
+                                                                    (match r with
+                                                                    | [] ->
+                                                                    bad
+                                                                    | k :: l ->
+                                                                    (match l with
+                                                                    | [] ->
+                                                                    bad
+                                                                    | nf :: r1 ->
+                                                                    (match 
+                                                                    hex_to_N k with
+                                                                    | Some k0 ->
+                                                                    (match 
+                                                                    hex_to_N
+                                                                    nf with
+                                                                    | Some nf0 ->
+                                                                    (match 
+                                                                    parse_names
+                                                                    (N.to_nat
+                                                                    nf0) r1 with
+                                                                    | Some p ->
+                                                                    let (
+                                                                    kf, l0) =
+                                                                    p
+                                                                    in
+                                                                    (
+                                                                    match l0 with
+                                                                    | [] ->
+                                                                    bad
+                                                                    | nb :: r2 ->
+                                                                    (match 
+                                                                    hex_to_N
+                                                                    nb with
+                                                                    | Some nb0 ->
+                                                                    (match 
+                                                                    parse_names
+                                                                    (N.to_nat
+                                                                    nb0) r2 with
+                                                                    | Some p0 ->
+                                                                    let (
+                                                                    kb, r3) =
+                                                                    p0
+                                                                    in
+                                                                    let all =
+                                                                    rev_append
+                                                                    st.r_env.e_acts
+                                                                    []
+                                                                    in
+                                                                    let pre =
+                                                                    firstn
+                                                                    (N.to_nat
+                                                                    k0) all
+                                                                    in
+                                                                    let since =
+                                                                    skipn
+                                                                    st.r_base_n
+                                                                    pre
+                                                                    in
+                                                                    let d =
+                                                                    crash_disk
+                                                                    { cc_keep_file =
+                                                                    kf;
+                                                                    cc_keep_batch =
+                                                                    kb }
+                                                                    (fold_left
+                                                                    apply_act
+                                                                    since
+                                                                    st.r_base)
+                                                                    in
+                                                                    run_ops0
+                                                                    fuel'
+                                                                    { r_cfg =
+                                                                    st.r_cfg;
+                                                                    r_wal =
+                                                                    None;
+                                                                    r_env =
+                                                                    { e_acts =
+                                                                    (rev_append
+                                                                    pre []);
+                                                                    e_disk =
+                                                                    d;
+                                                                    e_fault =
+                                                                    None;
+                                                                    e_m =
+                                                                    zero_metrics };
+                                                                    r_mark =
+                                                                    (length
+                                                                    pre);
+                                                                    r_base =
+                                                                    d;
+                                                                    r_base_n =
+                                                                    (length
+                                                                    pre) } r3
+                                                                    acc
+                                                                    | None ->
+                                                                    bad)
+                                                                    | None ->
+                                                                    bad))
+                                                                    | None ->
+                                                                    bad)
+                                                                    | None ->
+                                                                    bad)
+                                                                    | None ->
+                                                                    bad)))
+                                                                    else 
+                                                                    if 
+                                                                    chr0
+                                                                    (Npos (XO
+                                                                    (XI (XO
+                                                                    (XI (XI
+                                                                    (XO
+                                                                    XH)))))))
+                                                                    op
+                                                                    then 
+                                                                    run_ops0
+                                                                    fuel'
+                                                                    { r_cfg =
+                                                                    st.r_cfg;
+                                                                    r_wal =
+                                                                    None;
+                                                                    r_env =
+                                                                    { e_acts =
+                                                                    st.r_env.e_acts;
+                                                                    e_disk =
+                                                                    st.r_env.e_disk;
+                                                                    e_fault =
+                                                                    st.r_env.e_fault;
+                                                                    e_m =
+                                                                    zero_metrics };
+                                                                    r_mark =
+                                                                    st.r_mark;
+                                                                    r_base =
+                                                                    st.r_base;
+                                                                    r_base_n =
+                                                                    st.r_base_n }
+                                                                    r acc
+                                                                    else 
+                                                                    if 
+                                                                    chr0
+                                                                    (Npos (XO
+                                                                    (XI (XI
+                                                                    (XI (XO
+                                                                    (XO
+                                                                    XH)))))))
+                                                                    op
+                                                                    then 
+                                                                    run_ops0
+                                                                    fuel' st
+                                                                    r
+                                                                    ((n_to_hex
+                                                                    (N.of_nat
+                                                                    (length
+                                                                    st.r_env.e_acts))) :: acc)
+                                                                    else 
+                                                                    if 
+                                                                    chr0
+                                                                    (Npos (XI
+                                                                    (XO (XO
+                                                                    (XO (XI
+                                                                    (XO
+                                                                    XH)))))))
+                                                                    op
+                                                                    then 
+                                                                    (match r with
+                                                                    | [] ->
+                                                                    bad
+                                                                    | c :: r1 ->
+                                                                    (match 
+                                                                    hex_to_N c with
+                                                                    | Some c0 ->
+                                                                    run_ops0
+                                                                    fuel'
+                                                                    { r_cfg =
+                                                                    { c_seg_size =
+                                                                    st.r_cfg.c_seg_size;
+                                                                    c_codec =
+                                                                    c0 };
+                                                                    r_wal =
+                                                                    st.r_wal;
+                                                                    r_env =
+                                                                    st.r_env;
+                                                                    r_mark =
+                                                                    st.r_mark;
+                                                                    r_base =
+                                                                    st.r_base;
+                                                                    r_base_n =
+                                                                    st.r_base_n }
+                                                                    r1 acc
+                                                                    | None ->
+                                                                    bad))
+                                                                    else bad)
+
+(** val run_wal : str list -> str **)
+
+let run_wal = function
+| [] -> s_bad
+| sz :: l ->
+  (match l with
+   | [] -> s_bad
+   | cd :: l0 ->
+     (match l0 with
+      | [] -> s_bad
+      | _ :: ops ->
+        (match hex_to_N sz with
+         | Some sz0 ->
+           (match hex_to_N cd with
+            | Some cd0 ->
+              join
+                (run_ops0 (S (length ops)) { r_cfg = { c_seg_size = sz0;
+                  c_codec = cd0 }; r_wal = None; r_env = { e_acts = [];
+                  e_disk = empty_disk; e_fault = None; e_m = zero_metrics };
+                  r_mark = O; r_base = empty_disk; r_base_n = O } ops [])
+            | None -> s_bad)
+         | None -> s_bad)))
+
 (** val k_enc : str **)
 
 let k_enc =
@@ -2748,6 +4891,12 @@ let k_seg =
   (Npos (XI (XI (XO (XO (XI (XI XH))))))) :: ((Npos (XI (XO (XI (XO (XO (XI
     XH))))))) :: ((Npos (XI (XI (XI (XO (XO (XI XH))))))) :: []))
 
+(** val k_wal : str **)
+
+let k_wal =
+  (Npos (XI (XI (XI (XO (XI (XI XH))))))) :: ((Npos (XI (XO (XO (XO (XO (XI
+    XH))))))) :: ((Npos (XO (XO (XI (XI (XO (XI XH))))))) :: []))
+
 (** val run_line : str -> str **)
 
 let run_line line =
@@ -2758,4 +4907,6 @@ let run_line line =
     then run_enc args
     else if str_eqb cmd k_dec
          then run_dec args
-         else if str_eqb cmd k_seg then run_seg args else s_bad
+         else if str_eqb cmd k_seg
+              then run_seg args
+              else if str_eqb cmd k_wal then run_wal args else s_bad
